@@ -61,7 +61,7 @@ func runC14(r *Run) {
 		nsteps := 1 + rng.Intn(12)
 		var negs []int
 		for k := 0; k < nsteps; k++ {
-			st := ntlmStep{sid: []string{"s1", "s1", "s2", "10.0.0.1:4711", ""}[rng.Intn(5)], from: -1}
+			st := ntlmStep{sid: []string{"s1", "s1", "s2", "10.0.0.1:4711", "10.0.0.1:4712", "10.0.0.1:4711", ""}[rng.Intn(7)], from: -1}
 			switch x := rng.Intn(12); {
 			case x < 4:
 				st.kind = 'N'
@@ -166,7 +166,7 @@ func runC14(r *Run) {
 			}
 			sid := "-"
 			if st.sid != "" {
-				sid = map[string]string{"s1": "1", "s2": "2", "10.0.0.1:4711": "3"}[st.sid]
+				sid = map[string]string{"s1": "1", "s2": "2", "10.0.0.1:4711": "3", "10.0.0.1:4712": "4"}[st.sid]
 			}
 			hc.steps = append(hc.steps, st)
 			hc.outs = append(hc.outs, out)
